@@ -263,6 +263,16 @@ fn witness(c: &Case, variant: &str, extra: Value, base: &Bag, got: &Bag) -> Valu
         "rows_with_different_multiplicity_in_baseline": only_base, "rows_with_different_multiplicity_in_variant": only_got})
 }
 
+/// The engine-side dataset view of a query: the database's own dataset, or the FROM /
+/// FROM NAMED replacement (graph names encoded through the database dictionary).
+fn dataset_view(db: &SparqlDatabase, from: &[String], from_named: &[String]) -> DatasetView {
+    if from.is_empty() && from_named.is_empty() {
+        return DatasetView::from_database(db);
+    }
+    let enc = |g: &String| GraphId::Named(db.dictionary.write().unwrap().encode(g));
+    DatasetView::new(from.iter().map(enc).collect::<Vec<_>>(), from_named.iter().map(enc).collect::<Vec<_>>())
+}
+
 fn run(ctx: &mut Ctx) {
     let total = ctx.by_tier(12_000, 1_500_000);
     let pools: Vec<rayon::ThreadPool> = [1usize, 2, 3, 4, 8, 16].iter().map(|n| rayon::ThreadPoolBuilder::new().num_threads(*n).build().expect("pool")).collect();
@@ -300,7 +310,25 @@ fn run(ctx: &mut Ctx) {
             g.max_top = if big { 2 } else { 3 };
             g.max_nested = if big { 1 } else { 2 };
             let (group, _) = g.gen_group(0, true);
-            let q = Select { distinct: false, proj: Proj::Star, from: vec![], from_named: vec![], group, group_by: vec![], order: vec![], limit: None };
+            // 1 query in 3 replaces the dataset: a default graph MERGED from several named graphs
+            // (the same triple may sit in more than one of them) and an explicit named-graph set
+            let mut from: Vec<String> = vec![];
+            let mut from_named: Vec<String> = vec![];
+            let catalog: Vec<String> = snap.graphs.iter().cloned().collect();
+            if !catalog.is_empty() && rq.chance(1, 3) {
+                let n = rq.range(1, 3);
+                for _ in 0..n {
+                    from.push(rq.pick(&catalog).clone());
+                }
+                if rq.chance(1, 4) {
+                    from.push(ds::graph(9)); // a graph without identity contributes nothing
+                }
+                for _ in 0..rq.range(0, 2) {
+                    from_named.push(rq.pick(&catalog).clone());
+                }
+            }
+            let replaced_dataset = !from.is_empty() || !from_named.is_empty();
+            let q = Select { distinct: false, proj: Proj::Star, from: from.clone(), from_named: from_named.clone(), group, group_by: vec![], order: vec![], limit: None };
             let text = print_select(&q, &Style::default());
             let case = Case { snap: &snap, text: text.clone() };
             // ---- oracle
@@ -319,7 +347,7 @@ fn run(ctx: &mut Ctx) {
                 let (_, combined) = parse_combined_query(&text).map_err(|e| format!("parse: {:?}", e))?;
                 let Some(SparqlOperation::Select(sel)) = combined.sparql.as_ref() else { return Err("not a select".into()) };
                 let logical = build_logical_plan_from_group(&sel.pattern, &combined.prefixes, &mut db)?;
-                let view = DatasetView::from_database(&db);
+                let view = dataset_view(&db, &from, &from_named);
                 let stats = Arc::new(DatabaseStats::gather_stats_fast(&db));
                 let mut opt = Streamertail::with_cached_stats_and_dataset(stats, view.clone());
                 let plan = opt.find_best_plan(&logical);
@@ -349,7 +377,7 @@ fn run(ctx: &mut Ctx) {
             plans_seen.insert(hash_str(&format!("{:?}", plan)));
             let nj = count_joins(&plan);
             ctx.max("max_join_nodes_in_a_plan", nj as u64);
-            let view = DatasetView::from_database(&db);
+            let view = dataset_view(&db, &from, &from_named);
             let mut failed = false;
 
             // ---- 3. join algorithm assignments (+ scan swap, star expansion)
@@ -552,6 +580,9 @@ fn run(ctx: &mut Ctx) {
 
             ctx.count("distinct_physical_plans_executed", plans_seen.len() as u64);
             ctx.max("max_distinct_plans_for_one_query", plans_seen.len() as u64);
+            if replaced_dataset {
+                ctx.count("queries_with_replaced_dataset(merged_default_graph)", 1);
+            }
             if !base.is_empty() && nj >= 1 && plans_seen.len() >= 2 {
                 ctx.nontrivial(hash_str(&format!("{}#{}", text, dh)));
             }
